@@ -21,7 +21,7 @@ def _is_test_path(rel):
 
 
 class ModuleInfo:
-    def __init__(self, name, relpath, source, inline=False):
+    def __init__(self, name, relpath, source, inline=False, cm_gens=None):
         self.name = name                 # DocumentTemplate.DT_In
         self.short = name.split('.')[-1] if not name.endswith('__init__') \
             else name
@@ -31,6 +31,10 @@ class ModuleInfo:
         from .normalise import desugar_with
         from .normalise import inline_new_helpers
         self.cm_classes = desugar_with(self.tree)
+        # N1b: `with` over contextlib.contextmanager generators (model wide)
+        from .normalise import desugar_cm_generators
+        self.cm_funcs = set(cm_gens or ())
+        desugar_cm_generators(self.tree, cm_gens)
         from .normalise import desugar_first_match
         self.first_match = desugar_first_match(self.tree)
         short = name.split('.')[-1] if not relpath.endswith(
@@ -74,8 +78,11 @@ class FuncInfo:
         self.relpath = module.relpath
         # method of a context-manager class whose every use was rewritten
         # to try/finally (normalise.N1): judged at the use sites
-        self.cm_method = cls is not None and cls.name in getattr(
-            module, 'cm_classes', ())
+        self.cm_method = (cls is not None and cls.name in getattr(
+            module, 'cm_classes', ())) or (
+            node.name in getattr(module, 'cm_funcs', ()) and any(
+                'contextmanager' in ast.unparse(d)
+                for d in node.decorator_list))
 
     @property
     def where(self):
@@ -136,6 +143,7 @@ class Model:
 
     inline = False
     _inlined_view = None
+    cm_gens = {}
 
     def __init__(self, sources=None, root=None, inline=False):
         self.inline = inline
@@ -147,6 +155,16 @@ class Model:
         if sources is None:
             sources = self.read_sources(self.root)
         self.sources = sources
+        self.cm_gens = {}
+        if any('contextmanager' in src for src in sources.values()):
+            from .normalise import collect_cm_generators
+            trees = []
+            for rel, src in sorted(sources.items()):
+                try:
+                    trees.append(ast.parse(src))
+                except SyntaxError as e:
+                    raise AnalysisError(f'{rel} does not parse: {e}')
+            self.cm_gens = collect_cm_generators(trees)
         for rel, src in sorted(sources.items()):
             self._add_module(rel, src)
         self._link()
@@ -186,7 +204,8 @@ class Model:
             full = '.'.join(modparts)
             short = modparts[-1]
         try:
-            m = ModuleInfo(full, rel, src, inline=self.inline)
+            m = ModuleInfo(full, rel, src, inline=self.inline,
+                           cm_gens=self.cm_gens)
         except SyntaxError as e:
             raise AnalysisError(f'{rel} does not parse: {e}')
         m.short = short
